@@ -284,6 +284,10 @@ func H_C11_set_shared_scalars() {
 	x, y := nondetInt(), nondetInt()
 	s := hBytesStr(1)
 	a := NewListOf(x, 3)
+	if nondetIntRange(0, 1) == 1 {
+		// the same content, but with spare capacity behind it (grown one element at a time)
+		a = NewList().Add(x).Add(x).Add(x)
+	}
 	b := NewList(y, x)
 	c := b.SubList(0, 0)
 	d := a.Concat(b)
@@ -297,7 +301,7 @@ func H_C11_set_shared_scalars() {
 	}
 	var segs []hSeg
 	i := nondetIntRange(0, 4)
-	j := nondetIntRange(0, 2)
+	j := nondetIntRange(0, 3) // 3 = the length of the shortest lists here: a write at index == count appends
 	if rootIsList {
 		segs = []hSeg{{sigil: '#', idx: i, text: string([]byte{byte('0' + i)}), num: true}}
 	} else {
